@@ -54,13 +54,19 @@ theorem clip_of_mem (x lo hi : ℝ) (h1 : lo ≤ x) (h2 : x ≤ hi) : mju_clip x
 
 theorem real_zero : (zero : ℝ) = 0 := by simp [zero]
 
-theorem real_minval : (minval : ℝ) = 1e-15 := by
-  simp only [minval, real_ofSci]; norm_num
+/-- mjMINVAL as the translator saw it (the double nearest to 1e-15, printed with 17 digits) -/
+theorem real_minval : (minval : ℝ) = 1.0000000000000001e-15 := by
+  simp only [minval, real_ofSci]
 
-theorem max_minval (x : ℝ) (h : (1e-15 : ℝ) ≤ x) :
-    (if x < (MjNum.ofSci 10000000000000001 true 31 : ℝ) then (MjNum.ofSci 10000000000000001 true 31 : ℝ) else x) = x := by
-  have : (MjNum.ofSci 10000000000000001 true 31 : ℝ) = 1e-15 := real_minval
-  rw [this, if_neg (not_lt.mpr h)]
+theorem half_lit : (MjNum.ofSci 5 true 1 : ℝ) = 0.5 := by simp only [real_ofSci]
+theorem onehalf_lit : (MjNum.ofSci 15 true 1 : ℝ) = 1.5 := by simp only [real_ofSci]
+theorem minval_lit : (MjNum.ofSci 10000000000000001 true 31 : ℝ) = 1.0000000000000001e-15 := by
+  simp only [real_ofSci]
+
+/-- `mjMAX(mjMINVAL, x) = x` for x ≥ 1e-14 -/
+theorem guard (x : ℝ) (h : (1e-14 : ℝ) ≤ x) :
+    (if x < (1.0000000000000001e-15 : ℝ) then (1.0000000000000001e-15 : ℝ) else x) = x := by
+  rw [if_neg]; intro h'; linarith
 
 /-! ### controls -/
 
@@ -80,11 +86,12 @@ theorem ctrlStage_entry (cd : Bool) (cs : List (Ctrl ℝ)) (i : Nat) (h : i < cs
                 (fun x => mju_isBad x != 0)
             then 0 else (if cd then cs[i].value else clampEntry cs[i].limited cs[i].value cs[i].lo cs[i].hi)) := by
   unfold ctrlStage
-  split
-  · next hb => simp [hb, h, real_zero]
-  · next hb => simp [hb, h]
+  by_cases hb : (cs.map (fun c => if cd then c.value else clampEntry c.limited c.value c.lo c.hi)).any
+      (fun x => mju_isBad x != 0) = true
+  · simp only [hb, if_true]; simp [h, real_zero]
+  · simp only [hb, Bool.false_eq_true, if_false]; simp [h]
 
-example : lo_le : (0 : ℝ) ≤ clampEntry true (-3) 0 2 ∧ clampEntry true (-3) 0 2 ≤ 2 :=
+example : (0 : ℝ) ≤ clampEntry true (-3 : ℝ) 0 2 ∧ clampEntry true (-3 : ℝ) 0 2 ≤ 2 :=
   ctrl_clamped_in_range _ _ _ (by norm_num)
 
 /-! ### activations -/
@@ -100,13 +107,11 @@ theorem act_in_actrange (p : Integrate.ActSlot ℝ) (h act actDot : ℝ) (hl : p
 /-- documented activation derivatives -/
 theorem actdot_integrator (d0 d1 d2 u w : ℝ) : actDot .integrator d0 d1 d2 u w = u := rfl
 
-theorem actdot_filter (d0 d1 d2 u w : ℝ) (ht : (1e-15 : ℝ) ≤ d0) :
+theorem actdot_filter (d0 d1 d2 u w : ℝ) (ht : (1e-14 : ℝ) ≤ d0) :
     actDot .filter d0 d1 d2 u w = (u - w) / d0 ∧ actDot .filterexact d0 d1 d2 u w = (u - w) / d0 := by
-  have hm : mju_max (minval : ℝ) d0 = d0 := by
-    simp only [mju_max, real_le_iff, real_minval]
-    rcases eq_or_lt_of_le ht with h | h
-    · simp [h]
-    · rw [if_neg (not_le.mpr h)]
+  have hm : Gen.mju_max (minval : ℝ) d0 = d0 := by
+    simp only [Gen.mju_max, real_le_iff, real_minval]
+    rw [if_neg]; intro h; linarith
   simp [actDot, hm]
 
 /-! ### force limits -/
@@ -125,12 +130,17 @@ theorem jointforce_in_range (q lo hi : ℝ) (g : Option ℝ) (h : lo ≤ hi) :
     lo ≤ jointPost q g true lo hi ∧ jointPost q g true lo hi ≤ hi := by
   simp only [jointPost, clampEntry, if_true]; exact clip_mem _ lo hi h
 
-example : (-1 : ℝ) ≤ jointPost 5 (some 2) true (-1) 1 ∧ jointPost 5 (some 2) true (-1) 1 ≤ 1 :=
+example : (-1 : ℝ) ≤ jointPost (5 : ℝ) (some 2) true (-1) 1 ∧ jointPost (5 : ℝ) (some 2) true (-1) 1 ≤ 1 :=
   jointforce_in_range _ _ _ _ (by norm_num)
 
 theorem tendonScale_eq (t lo hi f : ℝ) :
     tendonScale t lo hi f = if t = 0 then f else if t < lo then f * (lo / t) else if hi < t then f * (hi / t) else f := by
   simp [tendonScale, real_zero, real_lt_iff]
+
+theorem sum_map_mul (fs : List ℝ) (c : ℝ) : (fs.map (fun f => f * c)).sum = fs.sum * c := by
+  induction fs with
+  | nil => simp
+  | cons f fs ih => simp [ih]; ring
 
 /-- tendon total-force limit: after rescaling, the total force of the actuators on the tendon is inside
     `[lo, hi]` (when it was outside it now sits on the violated bound) -/
@@ -145,13 +155,13 @@ theorem tendon_total_in_range (fs : List ℝ) (lo hi : ℝ) (h : lo ≤ hi) :
     · have hs : (fs.map (tendonScale t lo hi)).sum = lo := by
         have : (fs.map (tendonScale t lo hi)) = fs.map (fun f => f * (lo / t)) := by
           apply List.map_congr_left; intro f _; rw [tendonScale_eq]; simp [h0, h1]
-        rw [this, List.sum_map_mul_right]; show t * (lo / t) = lo; field_simp
+        rw [this, sum_map_mul]; show t * (lo / t) = lo; field_simp
       rw [hs]; exact ⟨le_refl _, h⟩
     · by_cases h2 : hi < t
       · have hs : (fs.map (tendonScale t lo hi)).sum = hi := by
           have : (fs.map (tendonScale t lo hi)) = fs.map (fun f => f * (hi / t)) := by
             apply List.map_congr_left; intro f _; rw [tendonScale_eq]; simp [h0, h1, h2]
-          rw [this, List.sum_map_mul_right]; show t * (hi / t) = hi; field_simp
+          rw [this, sum_map_mul]; show t * (hi / t) = hi; field_simp
         rw [hs]; exact ⟨h, le_refl _⟩
       · have hs : (fs.map (tendonScale t lo hi)) = fs := by
           conv_rhs => rw [← List.map_id fs]
@@ -219,48 +229,42 @@ example : actuatorDisabled 31 0xFFFFFFFF = false := by decide
 section Muscle
 open Spec.Muscle
 
-/-- the scaled length / velocity and the peak force inside the kernels are the documented L, V, F0
-    (non-degenerate ranges: every `mjMAX(mjMINVAL, ·)` guard is inactive) -/
-theorem muscle_scaling (len vel lr0 lr1 r0 r1 vmax : ℝ) (hr : (1e-15 : ℝ) ≤ r1 - r0) (hL : (1e-15 : ℝ) ≤ (lr1 - lr0) / (r1 - r0)) :
+/-- the scaled length / velocity inside the kernels are the documented L and V / vmax (non-degenerate ranges: every
+    `mjMAX(mjMINVAL, ·)` guard is inactive) -/
+theorem muscle_scaling (len vel lr0 lr1 r0 r1 vmax : ℝ) (hL : (1e-14 : ℝ) ≤ (lr1 - lr0) / (r1 - r0)) :
     r0 + (len - lr0) / ((lr1 - lr0) / (r1 - r0)) = scaledLength len lr0 lr1 r0 r1 ∧
     vel / ((lr1 - lr0) / (r1 - r0) * vmax) = scaledVelocity vel lr0 lr1 r0 r1 / vmax := by
   have h1 : (lr1 - lr0) / (r1 - r0) ≠ 0 := by intro h; rw [h] at hL; norm_num at hL
+  have h2 : r1 - r0 ≠ 0 := by intro h; rw [h, div_zero] at hL; norm_num at hL
+  have h3 : lr1 - lr0 ≠ 0 := by intro h; rw [h, zero_div] at hL; norm_num at hL
   constructor
-  · simp only [scaledLength, LT, L0]; field_simp; ring
+  · simp only [scaledLength, Spec.Muscle.LT, L0]
+    field_simp
+    ring
   · simp only [scaledVelocity, L0]; rw [div_div]
 
-/-- F_V of the kernel = F_V of FLV.m -/
-theorem muscleFV_eq_spec (V fvmax : ℝ) (hy : (1e-15 : ℝ) ≤ fvmax - 1) :
-    (if V ≤ -1 then 0 else if V ≤ 0 then (V + 1) * (V + 1)
-      else if V ≤ fvmax - 1 then fvmax - (fvmax - 1 - V) * (fvmax - 1 - V) / (fvmax - 1) else fvmax) = FV V fvmax := by
-  simp only [FV]
-
-/-- the length-gain kernel = the main bump of FLV.m, bump(L, lmin, 1, lmax), at every L (the kernel's `≤` and
-    FLV.m's `<` conventions give the same values at the knots) -/
-theorem muscleGainLength_eq_bump (L lmin lmax : ℝ) (h1 : lmin + 1e-14 ≤ 1) (h2 : 1 + 1e-14 ≤ lmax) :
+theorem muscleGainLength_eq_bump (L lmin lmax : ℝ) (h1 : lmin + 1e-13 ≤ 1) (h2 : 1 + 1e-13 ≤ lmax) :
     mju_muscleGainLength L lmin lmax = bump L lmin 1 lmax := by
-  have hA : (1e-15 : ℝ) ≤ 0.5 * (lmin + 1) - lmin := by linarith
-  have hB : (1e-15 : ℝ) ≤ 1 - 0.5 * (lmin + 1) := by linarith
-  have hC : (1e-15 : ℝ) ≤ 0.5 * (1 + lmax) - 1 := by linarith
-  have hD : (1e-15 : ℝ) ≤ lmax - 0.5 * (1 + lmax) := by linarith
-  have half : (OfScientific.ofScientific 5 true 1 : ℝ) = 0.5 := by norm_num
-  simp only [mju_muscleGainLength, real_ofSci, real_ofInt, real_le_iff, real_lt_iff, half, Int.cast_one, Int.cast_zero]
-  have e1 : (OfScientific.ofScientific 10000000000000001 true 31 : ℝ) = 1e-15 := by norm_num
-  simp only [e1]
-  rw [if_neg (not_lt.mpr hA), if_neg (not_lt.mpr hB), if_neg (not_lt.mpr hC), if_neg (not_lt.mpr hD)]
+  have hA : (1e-14 : ℝ) ≤ 0.5 * (lmin + 1) - lmin := by linarith
+  have hB : (1e-14 : ℝ) ≤ 1 - 0.5 * (lmin + 1) := by linarith
+  have hC : (1e-14 : ℝ) ≤ 0.5 * (1 + lmax) - 1 := by linarith
+  have hD : (1e-14 : ℝ) ≤ lmax - 0.5 * (1 + lmax) := by linarith
+  simp only [mju_muscleGainLength, half_lit, minval_lit, real_ofInt, real_le_iff, real_lt_iff, Int.cast_one, Int.cast_zero]
+  rw [guard _ hA, guard _ hB, guard _ hC, guard _ hD]
   simp only [bump]
   have hd1 : (0.5 * (lmin + 1) - lmin : ℝ) ≠ 0 := by linarith
   have hd2 : (1 - 0.5 * (lmin + 1) : ℝ) ≠ 0 := by linarith
   have hd3 : (0.5 * (1 + lmax) - 1 : ℝ) ≠ 0 := by linarith
   have hd4 : (lmax - 0.5 * (1 + lmax) : ℝ) ≠ 0 := by linarith
+  simp only [decide_eq_true_eq]
   by_cases c0 : lmin ≤ L ∧ L ≤ lmax
   · obtain ⟨c0a, c0b⟩ := c0
-    simp only [c0a, c0b, and_self, decide_true, if_true]
+    simp only [c0a, c0b, and_self, if_true]
     rcases eq_or_lt_of_le c0a with hLA | hLA
     · -- L = lmin: both are 0
       subst hLA
-      have : ¬ (0.5 * (lmin + 1) < lmin) := by linarith
-      simp [le_of_lt (by linarith : lmin < 0.5 * (lmin + 1))]
+      have p1 : lmin ≤ 0.5 * (lmin + 1) := by linarith
+      simp [p1]
     · rcases eq_or_lt_of_le c0b with hLB | hLB
       · -- L = lmax: both are 0
         subst hLB
@@ -272,7 +276,7 @@ theorem muscleGainLength_eq_bump (L lmin lmax : ℝ) (h1 : lmin + 1e-14 ≤ 1) (
           rintro (h | h) <;> linarith
         simp only [nA, if_false]
         by_cases c1 : L ≤ 0.5 * (lmin + 1)
-        · simp only [c1, decide_true, if_true]
+        · simp only [c1, if_true]
           rcases eq_or_lt_of_le c1 with he | hl
           · -- knot L = left
             have n1 : ¬ (L < 0.5 * (lmin + 1)) := by linarith
@@ -281,9 +285,9 @@ theorem muscleGainLength_eq_bump (L lmin lmax : ℝ) (h1 : lmin + 1e-14 ≤ 1) (
             rw [he]; field_simp; ring
           · simp only [hl, if_true]
         · have n1 : ¬ (L < 0.5 * (lmin + 1)) := by linarith
-          simp only [c1, decide_false, n1, if_false]
+          simp only [c1, n1, if_false]
           by_cases c2 : L ≤ 1
-          · simp only [c2, decide_true, if_true]
+          · simp only [c2, if_true]
             rcases eq_or_lt_of_le c2 with he | hl
             · -- knot L = mid = 1
               subst he
@@ -291,9 +295,9 @@ theorem muscleGainLength_eq_bump (L lmin lmax : ℝ) (h1 : lmin + 1e-14 ≤ 1) (
               simp [p3]
             · simp only [hl, if_true]
           · have n2 : ¬ (L < 1) := by linarith
-            simp only [c2, decide_false, n2, if_false]
+            simp only [c2, n2, if_false]
             by_cases c3 : L ≤ 0.5 * (1 + lmax)
-            · simp only [c3, decide_true, if_true]
+            · simp only [c3, if_true]
               rcases eq_or_lt_of_le c3 with he | hl
               · -- knot L = right
                 have n3 : ¬ (L < 0.5 * (1 + lmax)) := by linarith
@@ -301,99 +305,84 @@ theorem muscleGainLength_eq_bump (L lmin lmax : ℝ) (h1 : lmin + 1e-14 ≤ 1) (
                 rw [he]; field_simp; ring
               · simp only [hl, if_true]
             · have n3 : ¬ (L < 0.5 * (1 + lmax)) := by linarith
-              simp only [c3, decide_false, n3, if_false]
+              simp only [c3, n3, if_false]
   · have : L < lmin ∨ lmax < L := by
       by_contra hc; push Not at hc; exact c0 ⟨hc.1, hc.2⟩
-    have hA' : L ≤ lmin ∨ lmax ≤ L := by rcases this with h | h; exact Or.inl (le_of_lt h); exact Or.inr (le_of_lt h)
-    simp [c0, hA']
+    have hA' : L ≤ lmin ∨ lmax ≤ L := by
+      rcases this with h | h
+      · exact Or.inl (le_of_lt h)
+      · exact Or.inr (le_of_lt h)
+    simp only [c0, hA', if_true, if_false]
 
-/-- the passive-force kernel at L = lmax: 1.5 · fpmax · F0 (force > 0 given, unit scaling) -/
-theorem muscleBias_at_lmax (lmax fpmax force : ℝ) (h2 : 1 + 1e-14 ≤ lmax) (hf : 0 ≤ force) :
+theorem muscleBias_at_lmax (lmax fpmax force : ℝ) (h2 : 1 + 1e-13 ≤ lmax) (hf : 0 ≤ force) :
     mju_muscleBias lmax 0 1 1 0 1 force 0 lmax fpmax = -(1.5 * fpmax * force) := by
-  have half : (OfScientific.ofScientific 5 true 1 : ℝ) = 0.5 := by norm_num
-  have e1 : (OfScientific.ofScientific 10000000000000001 true 31 : ℝ) = 1e-15 := by norm_num
-  simp only [mju_muscleBias, real_ofSci, real_ofInt, real_le_iff, real_lt_iff, half, e1, Int.cast_one, Int.cast_zero]
+  simp only [mju_muscleBias, half_lit, minval_lit, real_ofInt, real_le_iff, real_lt_iff, Int.cast_one, Int.cast_zero]
   have nf : ¬ force < 0 := not_lt.mpr hf
-  have n1 : ¬ ((1 : ℝ) - 0 < 1e-15) := by norm_num
-  have hC : ¬ (0.5 * (1 + lmax) - 1 < (1e-15 : ℝ)) := by linarith
-  have n2 : ¬ ((1 - 0) / (1 - 0) < (1e-15 : ℝ)) := by norm_num
-  simp only [nf, n1, n2, hC, decide_false, if_false]
+  have g1 : (1e-14 : ℝ) ≤ 1 - 0 := by norm_num
+  have g2 : (1e-14 : ℝ) ≤ (1 - 0) / (1 - 0) := by norm_num
+  have g3 : (1e-14 : ℝ) ≤ 0.5 * (1 + lmax) - 1 := by linarith
+  rw [guard _ g1, guard _ g2, guard _ g3]
+  simp only [nf, decide_false, decide_eq_true_eq, Bool.false_eq_true, if_false]
   have hL : (0 : ℝ) + (lmax - 0) / ((1 - 0) / (1 - 0)) = lmax := by norm_num
   rw [hL]
   have n3 : ¬ (lmax ≤ 1) := by linarith
   have n4 : ¬ (lmax ≤ 0.5 * (1 + lmax)) := by linarith
-  simp only [n3, n4, decide_false, if_false]
+  simp only [n3, n4, if_false]
   have hd : (0.5 * (1 + lmax) - 1 : ℝ) ≠ 0 := by linarith
   field_simp; ring
 
-/-- FINDING (documentation vs code): XMLreference documents fpmax as "passive force generated at lmax, relative to
-    the peak rest force" and FLV.m gives F_P(lmax) = fpmax; the kernel gives 1.5·fpmax -/
 theorem muscleBias_differs_from_doc :
     FP_flvm 1.6 1.6 1.3 = 1.3 ∧ mju_muscleBias (1.6 : ℝ) 0 1 1 0 1 1 0 1.6 1.3 = -(1.5 * 1.3 * 1) := by
   constructor
   · simp only [FP_flvm]; norm_num
   · exact muscleBias_at_lmax 1.6 1.3 1 (by norm_num) (by norm_num)
 
-/-- FINDING (documentation vs code): FLV.m adds a second bump 0.15·bump(L, lmin, (lmin+0.95)/2, 0.95) to F_L; the
-    kernel does not (at L = 0.8 with the default lmin = 0.5, lmax = 1.6 the two differ) -/
 theorem muscleGainLength_differs_from_FLVm :
     mju_muscleGainLength (0.8 : ℝ) 0.5 1.6 ≠ FL_flvm 0.8 0.5 1.6 := by
   rw [muscleGainLength_eq_bump _ _ _ (by norm_num) (by norm_num)]
   simp only [FL_flvm, bump]
   norm_num
 
-/-- activation dynamics kernel = documented filter with the Millard time constant (hard switching: tausmooth below
-    mjMINVAL; activation inside [0,1] — the kernel clamps act inside τ, the documentation does not say so) -/
 theorem muscleDynamics_eq_spec (ctrl act tauAct tauDeact ts : ℝ) (ha0 : 0 ≤ act) (ha1 : act ≤ 1) (hs : ts < 1e-15)
-    (hta : (1e-15 : ℝ) ≤ tauAct * 0.5) (htd : (1e-15 : ℝ) ≤ tauDeact / 2) :
+    (hta : (1e-14 : ℝ) ≤ tauAct * 0.5) (htd : (1e-14 : ℝ) ≤ tauDeact / 2) :
     mju_muscleDynamics ctrl act tauAct tauDeact ts = Spec.Muscle.actDot ctrl act tauAct tauDeact := by
-  have half : (OfScientific.ofScientific 5 true 1 : ℝ) = 0.5 := by norm_num
-  have onehalf : (OfScientific.ofScientific 15 true 1 : ℝ) = 1.5 := by norm_num
-  have e1 : (OfScientific.ofScientific 10000000000000001 true 31 : ℝ) = 1e-15 := by norm_num
-  simp only [mju_muscleDynamics, mju_muscleDynamicsTimescale, real_ofSci, real_ofInt, real_lt_iff, half, onehalf, e1,
+  simp only [mju_muscleDynamics, mju_muscleDynamicsTimescale, half_lit, onehalf_lit, minval_lit, real_ofInt, real_lt_iff,
     Int.cast_one, Int.cast_zero, clip_eq, Spec.Muscle.actDot, Spec.Muscle.tau, Spec.Muscle.clamp01]
   have hact : (if act < 0 then (0 : ℝ) else if 1 < act then 1 else act) = act := by
     rw [if_neg (not_lt.mpr ha0), if_neg (not_lt.mpr ha1)]
   rw [hact]
-  simp only [hs, decide_true, if_true]
+  have hs' : ts < 1.0000000000000001e-15 := by linarith
+  simp only [hs', decide_true, if_true]
   have hpos : (0 : ℝ) < 0.5 + 1.5 * act := by linarith
   set u : ℝ := (if ctrl < 0 then 0 else if 1 < ctrl then 1 else ctrl) with hu
   by_cases hd : 0 < u - act
   · have hgt : u - act > 0 := hd
     simp only [hd, hgt, if_true]
-    have : ¬ (tauAct * (0.5 + 1.5 * act) < 1e-15) := by
-      have : tauAct * 0.5 ≤ tauAct * (0.5 + 1.5 * act) := by
-        have hta' : 0 ≤ tauAct := by nlinarith
-        nlinarith
-      linarith
-    rw [if_neg this]
+    have hta' : 0 ≤ tauAct := by linarith
+    have : (1e-14 : ℝ) ≤ tauAct * (0.5 + 1.5 * act) := by nlinarith
+    rw [guard _ this]
   · have hgt : ¬ (u - act > 0) := hd
     simp only [hd, hgt, if_false]
-    have : ¬ (tauDeact / (0.5 + 1.5 * act) < 1e-15) := by
-      have htd' : 0 ≤ tauDeact := by linarith
+    have htd' : 0 ≤ tauDeact := by linarith
+    have : (1e-14 : ℝ) ≤ tauDeact / (0.5 + 1.5 * act) := by
       have : tauDeact / 2 ≤ tauDeact / (0.5 + 1.5 * act) := by
         apply div_le_div_of_nonneg_left htd' hpos; linarith
       linarith
-    rw [if_neg this]
+    rw [guard _ this]
 
-/-- the gain kernel = −F0 · bump(L, lmin, 1, lmax) · F_V(V / vmax) with the documented L, V, F0
-    (non-degenerate parameters) -/
 theorem muscleGain_eq_spec (len vel lr0 lr1 acc0 r0 r1 force scale lmin lmax vmax fvmax : ℝ)
-    (hr : (1e-15 : ℝ) ≤ r1 - r0) (hL : (1e-15 : ℝ) ≤ (lr1 - lr0) / (r1 - r0))
-    (hV : (1e-15 : ℝ) ≤ (lr1 - lr0) / (r1 - r0) * vmax) (hacc : (1e-15 : ℝ) ≤ acc0)
-    (hy : (1e-15 : ℝ) ≤ fvmax - 1) (h1 : lmin + 1e-14 ≤ 1) (h2 : 1 + 1e-14 ≤ lmax) :
+    (hr : (1e-14 : ℝ) ≤ r1 - r0) (hL : (1e-14 : ℝ) ≤ (lr1 - lr0) / (r1 - r0))
+    (hV : (1e-14 : ℝ) ≤ (lr1 - lr0) / (r1 - r0) * vmax) (hacc : (1e-14 : ℝ) ≤ acc0)
+    (hy : (1e-14 : ℝ) ≤ fvmax - 1) (h1 : lmin + 1e-13 ≤ 1) (h2 : 1 + 1e-13 ≤ lmax) :
     mju_muscleGain len vel lr0 lr1 acc0 r0 r1 force scale lmin lmax vmax fvmax =
       -(F0 force scale acc0) * bump (scaledLength len lr0 lr1 r0 r1) lmin 1 lmax *
         FV (scaledVelocity vel lr0 lr1 r0 r1 / vmax) fvmax := by
-  obtain ⟨hsl, hsv⟩ := muscle_scaling len vel lr0 lr1 r0 r1 vmax hr hL
-  have e1 : (OfScientific.ofScientific 10000000000000001 true 31 : ℝ) = 1e-15 := by norm_num
-  simp only [mju_muscleGain, real_ofSci, real_ofInt, real_le_iff, real_lt_iff, e1, Int.cast_one, Int.cast_zero,
+  obtain ⟨hsl, hsv⟩ := muscle_scaling len vel lr0 lr1 r0 r1 vmax hL
+  simp only [mju_muscleGain, minval_lit, real_ofInt, real_le_iff, real_lt_iff, Int.cast_one, Int.cast_zero,
     Int.cast_neg]
-  rw [if_neg (not_lt.mpr hacc), if_neg (not_lt.mpr hr), if_neg (not_lt.mpr hL), if_neg (not_lt.mpr hV),
-    if_neg (not_lt.mpr hy)]
+  rw [guard _ hacc, guard _ hr, guard _ hL, guard _ hV, guard _ hy]
   rw [hsl, hsv, muscleGainLength_eq_bump _ _ _ h1 h2]
-  simp only [F0, FV]
-  by_cases hf : force < 0 <;> simp [hf]
+  simp only [F0, FV, decide_eq_true_eq]
 
 end Muscle
 
@@ -443,8 +432,7 @@ theorem qfrc_actuator_eq_momentT_force (rows : List (List (Fin nc × ℝ))) (vec
       simp only [this, Bool.false_eq_true, if_false]
       rw [row_fold]; ring
 
-example : (mulMatTVecSparse 2 [[((0 : Fin 2), (2 : ℝ)), (1, 3)], [((1 : Fin 2), 5)]] [10, 1])[1] = 35 := by
-  rw [show (1 : Nat) = (1 : Fin 2).val from rfl, qfrc_actuator_eq_momentT_force]
+example : denseCol [[((0 : Fin 2), (2 : ℝ)), (1, 3)], [((1 : Fin 2), 5)]] [10, 1] (1 : Fin 2) = 35 := by
   simp [denseCol]; norm_num
 
 end Sparse
